@@ -712,6 +712,8 @@ func (bc *boundsCtx) constraintsAt(use Loc, useNode ast.Node) []dbc {
 		}
 		out = append(out, e)
 	}
+	// tag-switch clause reached directly or through fallthrough: the tag equals one of the case constants
+	out = bc.switchClauseFacts(use, useNode, out)
 	// short-circuit facts inside the CFG node that contains the use:
 	// in `A || B` B is evaluated only when A is false, in `A && B` only when true.
 	if use.B < len(g.C.Blocks) && use.I < len(g.C.Blocks[use.B].Nodes) {
@@ -1866,4 +1868,79 @@ func (bc *boundsCtx) applySums(cs []dbc) []dbc {
 		}
 	}
 	return cs
+}
+
+// switchClauseFacts: when the use lies in a case clause of a tag switch whose
+// case values are integer constants, the tag is bounded by the constants of
+// that clause and of the preceding clauses that fall through into it.
+func (bc *boundsCtx) switchClauseFacts(use Loc, useNode ast.Node, out []dbc) []dbc {
+	var sw *ast.SwitchStmt
+	var ci int = -1
+	ast.Inspect(bc.body, func(x ast.Node) bool {
+		s, ok := x.(*ast.SwitchStmt)
+		if !ok || s.Tag == nil {
+			return true
+		}
+		for i, cl := range s.Body.List {
+			cc := cl.(*ast.CaseClause)
+			for _, st := range cc.Body {
+				if st.Pos() <= useNode.Pos() && useNode.End() <= st.End() {
+					sw, ci = s, i
+				}
+			}
+		}
+		return true
+	})
+	if sw == nil || !pureExpr(sw.Tag) {
+		return out
+	}
+	tag := bc.linOf(sw.Tag)
+	if !tag.ok {
+		return out
+	}
+	tl, ok := bc.g.LocOf(sw.Tag)
+	if !ok {
+		return out
+	}
+	roots := map[string]bool{}
+	rootsOfExprI(bc.info, sw.Tag, roots)
+	if bc.modBetweenLocs(tl, use, roots, sw, useNode) {
+		return out
+	}
+	var lo, hi int64
+	first := true
+	for i := ci; i >= 0; i-- {
+		cc := sw.Body.List[i].(*ast.CaseClause)
+		if i != ci {
+			// must end with fallthrough
+			if len(cc.Body) == 0 {
+				break
+			}
+			br, ok := cc.Body[len(cc.Body)-1].(*ast.BranchStmt)
+			if !ok || br.Tok != token.FALLTHROUGH {
+				break
+			}
+		}
+		if cc.List == nil {
+			return out // default clause: no information
+		}
+		for _, e := range cc.List {
+			v, ok := constInt(bc.info, e)
+			if !ok {
+				return out
+			}
+			if first || v < lo {
+				lo = v
+			}
+			if first || v > hi {
+				hi = v
+			}
+			first = false
+		}
+	}
+	if first {
+		return out
+	}
+	out = append(out, dbc{tag.term, "", lo - tag.off, "switch clause (with fallthrough)"}, dbc{"", tag.term, tag.off - hi, "switch clause (with fallthrough)"})
+	return out
 }
